@@ -37,8 +37,8 @@ UNPROVED = ["read_agrees_spec_full (false: negation proved, F7a/F7c/F7d/F7e)",
             "reemit_original_directory, proved for every relicReadable archive; WriteDirectory: reemit_unmodified_readable, exact class canonEnds)",
             "zip_rewrite_preserves_members_full (C03) is refuted without the fixed-layout ZIP64 clause "
             "(not_zip_rewrite_preserves_members_full, F7e); with it: zip_rewrite_preserves_members_readable",
-            "Read after WriteDirectory on the archives relic itself writes: read_write_directory_own_output (proved; WriteDirectory is not idempotent for "
-            "synthesised ZIP64 entries: write_directory_twice_prepends_twice, F-APPX-ZIP64)"]
+            "Read after WriteDirectory on the archives relic itself writes: read_write_directory_own_output (proved); WriteDirectory twice: "
+            "write_directory_idempotent (proved for the code with fix 7d5f1c2; before it: write_directory_twice_prepends_twice_orig, F-APPX-ZIP64)"]
 IMPL_PARALLEL = 16
 
 READ_FLAGS = {"eocd-comment": "F7c", "tiny": "F7c", "desc-nosig": "F7d", "zip64-partial": "F7e"}
@@ -155,6 +155,12 @@ def evaluate(op, il, mres, tag, origin, pyline=None):
     kind = op.split(" ")[1]
     out = []
     if kind == "wd":
+        # write_directory_idempotent: a second WriteDirectory on the same directory writes a central directory of the same
+        # length (F-APPX-ZIP64, fixed 7d5f1c2: before it every ZIP64 entry grew by 28 bytes per call)
+        g = core.split(" ")
+        if g[0] == "ok" and len(g) >= 6 and g[5] != g[1]:
+            out.append(("Relic.Props.C17.write_directory_idempotent", "second-directory-longer-by-28-bytes-per-entry", g[1],
+                        "second WriteDirectory on the same directory wrote %s bytes of central directory, the first %s" % (g[5], g[1])))
         return out
     if kind == "wdx":
         # whatever GetDirectoryHeader emits must be as long as its own length fields say (else no reader finds the next
